@@ -940,3 +940,104 @@ func init() {
 		},
 	})
 }
+
+func init() {
+	register(&Rule{
+		ID: "C18.R5", Props: []string{"C18"}, Min: 1,
+		Doc: "the overlay owns its layer list: the constructor stores a slice it allocated itself (upper first, then a copy of the lower layers) — never the caller's variadic slice or an append onto it, which would let one overlay overwrite another's layers or the caller's list",
+		Run: func(p *Prog, c *Ctx) {
+			fn := p.MustFn("vuego.NewOverlayFS")
+			found := false
+			eachInstr(fn, func(in ssa.Instruction) {
+				st, ok := in.(*ssa.Store)
+				if !ok {
+					return
+				}
+				fv := fieldVar(st.Addr)
+				if fv == nil || fv.Name() != "chainFS" {
+					return
+				}
+				found = true
+				okFresh := true
+				why := ""
+				// the stored slice: result of append(base, …) where base is a literal built here; or make+copy
+				var check func(v ssa.Value, d int)
+				check = func(v ssa.Value, d int) {
+					if d > 4 {
+						return
+					}
+					for _, o := range p.origins(v, OriginOpts{}) {
+						switch x := o.(type) {
+						case *ssa.Alloc, *ssa.MakeSlice:
+						case *ssa.Call:
+							if calleeName(&x.Call) == "builtin.append" {
+								check(x.Call.Args[0], d+1) // the base decides whose backing array is written
+							} else {
+								okFresh, why = false, "result of "+calleeName(&x.Call)
+							}
+						case *ssa.Parameter:
+							okFresh, why = false, "the caller's slice `"+x.Name()+"` (its backing array is reused when it has spare capacity)"
+						default:
+							okFresh, why = false, describeValue(o)
+						}
+					}
+				}
+				check(st.Val, 0)
+				// in-place writes into a parameter slice
+				eachInstr(fn, func(in2 ssa.Instruction) {
+					if cl, ok := in2.(*ssa.Call); ok && calleeName(&cl.Call) == "builtin.copy" {
+						for _, o := range p.origins(cl.Call.Args[0], OriginOpts{}) {
+							if ap, ok := o.(*ssa.Call); ok && calleeName(&ap.Call) == "builtin.append" {
+								for _, oo := range p.origins(ap.Call.Args[0], OriginOpts{}) {
+									if prm, ok := oo.(*ssa.Parameter); ok {
+										okFresh, why = false, "copy() into an append onto the caller's slice `"+prm.Name()+"`"
+									}
+								}
+							}
+						}
+					}
+				})
+				c.check(okFresh, "NewOverlayFS: layer list is a fresh slice", p.instrPos(st), "append([]fs.FS{upper}, lower...)", "the overlay's layer list is built on "+why+": a second overlay built from the same list, or the caller itself, overwrites this overlay's layers (wrong upper layer, last layer lost)")
+			})
+			c.check(found, "NewOverlayFS: stores the layer list", p.pos(fn.Pos()), "chainFS assigned", "the constructor no longer stores the layer list")
+		},
+	})
+
+	register(&Rule{
+		ID: "C17.R7", Props: []string{"C17", "C08"}, Min: 2,
+		Doc: "struct fields are addressed by exact name or exact JSON tag: in the struct resolver the requested name is compared by string equality with the tag's name part (or used for FieldByName), never by prefix/substring/case-folding tests, so that `user` cannot resolve to `user_id` and a non-existent name stays absent",
+		Run: func(p *Prog, c *Ctx) {
+			fn := p.MustFn("reflect.resolveStruct")
+			name := fn.Params[1]
+			eq := 0
+			for _, site := range callsIn(fn) {
+				n := calleeName(site.Common())
+				if !strings.HasPrefix(n, "strings.") {
+					continue
+				}
+				for _, a := range site.Common().Args {
+					if a == name {
+						switch n {
+						case "strings.HasPrefix", "strings.HasSuffix", "strings.Contains", "strings.EqualFold", "strings.Index":
+							c.fail("resolveStruct: "+n+" on the requested name", p.instrPos(site), "the requested field name is matched with "+n+" instead of equality: a name that is a prefix/substring of another field's JSON tag resolves to that field, and absent names resolve to something")
+						}
+					}
+				}
+			}
+			eachInstr(fn, func(in ssa.Instruction) {
+				if b, ok := in.(*ssa.BinOp); ok && b.Op == token.EQL && (b.X == name || b.Y == name) {
+					eq++
+					c.ok(fmt.Sprintf("resolveStruct: tag == name#%d", eq), p.instrPos(b), "string equality")
+				}
+			})
+			byName := false
+			for _, site := range callsIn(fn) {
+				if calleeName(site.Common()) == "reflect.Type.FieldByName" && site.Common().Args[0] == name {
+					byName = true
+				}
+			}
+			c.check(byName, "resolveStruct: FieldByName(name)", p.pos(fn.Pos()), "exact field name lookup", "the struct resolver no longer looks the field up by its exact name")
+			c.check(eq > 0, "resolveStruct: JSON tag compared by equality", p.pos(fn.Pos()), fmt.Sprintf("%d equality test(s)", eq), "the JSON tag is no longer compared with the requested name by equality")
+		},
+	})
+}
